@@ -47,13 +47,15 @@ def correspond(res, tier, seed, only=None):
     binp, out = core.build_harness('retry')
     if not binp:
         raise RuntimeError('harness build failed:\n' + out[-3000:])
-    path, rc, out = core.run_harness(binp, 'TestVerifC18', tier, seed, pkg='retry', timeout=600)
+    path, rc, out = core.run_harness(binp, 'TestVerifC18', tier, seed, pkg='retry', timeout=600,
+                                     extra_env={'VERIF_C18_TRIALS': '16'} if only is not None else None)
     if rc != 0:
         raise RuntimeError('harness run failed rc=%d:\n%s' % (rc, out[-3000:]))
     reqs, obs = core.read_cases(path)
     exp = core.oracle(reqs)
     seen = set()
     first = {}
+    groups = {}
     for i, (r, e, o) in enumerate(zip(reqs, exp, obs)):
         res.evaluations += 1
         verb = r.split(' ')[0]
@@ -70,7 +72,12 @@ def correspond(res, tier, seed, only=None):
         if e != o:
             res.count('mismatch')
             if only is None or r in only:
-                report(res, r, e, o)
+                groups.setdefault(clause_of(r, e, o), []).append((r, e, o))
+    # one violation per (verb, clause) and input shape: the smallest failing inputs, with the number of others
+    for cl in sorted(groups):
+        g = sorted(groups[cl], key=lambda t: (len(t[0]), t[0]))
+        for r, e, o in (g if only is not None else g[:2]):
+            report(res, r, e, o, cl, len(g))
     res.exhaustive = False
     picks = sorted(set(list(first.values()) + [len(reqs) // 5, len(reqs) // 2, len(reqs) - 1200, len(reqs) - 700, len(reqs) - 1]))
     res.samples = [dict(request=reqs[i], oracle=exp[i], observed=obs[i]) for i in picks if 0 <= i < len(reqs)]
@@ -82,11 +89,34 @@ def field(s, name):
     return m.group(1) if m else None
 
 
-def report(res, r, e, o):
-    """a disagreement between the real code and the model. The model is proved to have the property, so the
-    observation is judged against the model's answer clause by clause to say which part of the property fails."""
+def clause_of(r, e, o):
+    """which clause of the property the observation contradicts (the model's answer e is proved to satisfy all)"""
     parts = r.split(' ')
     verb = parts[0]
+    if verb != 'retry':
+        return verb
+    ctx = parts[4]
+    if o.startswith('nondeterministic'):
+        return 'stops_at_once' if ctx[-1] in 'cx' else 'deterministic'
+    if o in ('timeout', 'panic'):
+        return o
+    if field(e, 'calls') != field(o, 'calls'):
+        ec, oc = int(field(e, 'calls')), int(field(o, 'calls') or 0)
+        return 'stops_at_once' if oc > ec and (ctx[-1] in 'cxd' or ctx[0] in 'CD') else 'runs_total'
+    if field(e, 'result') != field(o, 'result'):
+        return 'success_iff_last_ok'
+    if field(e, 'main') != field(o, 'main') or field(e, 'is') != field(o, 'is'):
+        return 'failure_reason'
+    if field(e, 'kept') != field(o, 'kept') or field(e, 'others') != field(o, 'others'):
+        return 'kept_errors'
+    return 'attempts'
+
+
+def report(res, r, e, o, clause, n_same):
+    """a disagreement between the real code and the model (which is proved to have the property)"""
+    parts = r.split(' ')
+    verb = parts[0]
+    more = '' if n_same <= 1 else ' [%d inputs of this run fail this clause]' % n_same
     if verb == 'nextwait':
         b, m, j, n = parts[1:5]
         what = 'nextWait(BackOff=%s, Max=%s, Jitter=false, attempts=%s) = %s; the proved model gives %s' % (b, m, n, o, e)
@@ -95,35 +125,20 @@ def report(res, r, e, o):
                 what += ' (outside [0, Max])'
         except ValueError:
             pass
-        res.violation('nextwait:%s:%s:0:%s' % (b, m, n), what, 'input', True, case=[r], expected=[e], observed=[o])
+        res.violation('nextwait:%s:%s:0:%s' % (b, m, n), what + more, 'input', True, case=[r], expected=[e], observed=[o])
     elif verb == 'nextwait-feasible':
         b, m, n, w = parts[1:5]
         res.violation('nextwait:%s:%s:1:%s' % (b, m, n),
-                      'nextWait(BackOff=%s, Max=%s, Jitter=true, attempts=%s) returned %s, which no draw 0 <= s < 2^attempts yields in the proved model (%s)' % (b, m, n, w, o if o != 'yes' else e),
+                      'nextWait(BackOff=%s, Max=%s, Jitter=true, attempts=%s) returned %s, which no draw 0 <= s < 2^attempts yields in the proved model (%s)%s'
+                      % (b, m, n, w, o if o != 'yes' else e, more),
                       'input', True, case=[r], expected=[e], observed=[o])
     elif verb == 'retry-elapsed':
-        res.violation('retry-elapsed:' + ' '.join(parts[1:5]), 'RetryWithCtx returned after %s ns: %s (the waits were not slept through)' % (parts[5], e),
+        res.violation('retry-elapsed:' + ' '.join(parts[1:5]), 'RetryWithCtx returned after %s ns: %s (the waits were not slept through)%s' % (parts[5], e, more),
                       'input', True, case=[r], expected=[e], observed=[o])
     else:
-        clause = 'result'
-        if o.startswith('nondeterministic'):
-            clause = 'stops_at_once' if parts[4][-1] in 'cx' else 'deterministic'
-        elif o in ('timeout', 'panic'):
-            clause = o
-        elif field(e, 'calls') != field(o, 'calls'):
-            ec, oc = int(field(e, 'calls')), int(field(o, 'calls') or 0)
-            clause = 'stops_at_once' if oc > ec and (parts[4][-1] in 'cxd' or parts[4][0] in 'CD') else 'runs_total'
-        elif field(e, 'result') != field(o, 'result'):
-            clause = 'success_iff_last_ok'
-        elif field(e, 'main') != field(o, 'main') or field(e, 'is') != field(o, 'is'):
-            clause = 'failure_reason'
-        elif field(e, 'kept') != field(o, 'kept') or field(e, 'others') != field(o, 'others'):
-            clause = 'kept_errors'
-        elif field(e, 'attempts') != field(o, 'attempts'):
-            clause = 'attempts'
         key = 'retry:%s:%s' % (clause, ' '.join(parts[1:]))
-        res.violation(key, 'RetryWithCtx(cfg=%s, retries=%s, outcomes=%s, ctx=%s): observed [%s]; the proved model gives [%s] (clause %s)'
-                      % (parts[1], parts[2], parts[3], parts[4], o, e, clause),
+        res.violation(key, 'RetryWithCtx(cfg=BackOff,Max,KeepErrs,Jitter=%s, retries=%s, outcomes=%s, ctx=%s): observed [%s]; the proved model gives [%s] (clause %s)%s'
+                      % (parts[1], parts[2], parts[3], parts[4], o, e, clause, more),
                       'input', True, case=[r], expected=[e], observed=[o])
 
 
